@@ -233,7 +233,7 @@ def capacity_ok(case, decisions, resolution=1):
     return True, None
 
 
-def evaluate(case, decisions):
+def evaluate(case, decisions, malleable_end_shift=False):
     """Reference semantics: returns (valid, utility, why). `decisions`: leaf index -> None | allocation."""
     nodes = case["nodes"]
     now = case["now"]
@@ -268,7 +268,7 @@ def evaluate(case, decisions):
                 d = decisions.get(i)
                 sat = d is not None
                 r = {"nou": False, "sat": sat, "util": n["utility"] if sat else 0.0, "start": min(t for _p, t in d) if sat else None,
-                     "end": max(t for _p, t in d) + n["wgran"] if sat else None, "var_ind": True, "var_time": True}
+                     "end": max(t for _p, t in d) + (0 if malleable_end_shift else n["wgran"]) if sat else None, "var_ind": True, "var_time": True}
         elif k == "ALLOCATION":
             r = {"nou": False, "sat": True, "util": 0.0, "start": n["start"], "end": n["start"] + n["duration"], "var_ind": False, "var_time": False}
         elif k == "SCALE":
